@@ -264,10 +264,10 @@ class Prop:
     shard = 8
     rule = ("every ordered forest shape with <= N nodes (quick N=4, thorough N=5) with every style of the table, the default, '', 'list', 4 custom "
             "4-/6-tuples incl. astral-plane code points and 6 malformed styles; every (N+1)-node shape with a rotating fifth (quick) / third (thorough) of the styles; "
-            "plus seeded random deep/wide trees of 6..24 nodes (quick 24, thorough 300); every 5th case gives all nodes ONE data object "
-            "(siblings equal but not identical); 22 fixed + 24 (quick) / 200 (thorough) random MUTATION HISTORIES (remove, remove(keep_children), "
+            "plus seeded random deep/wide trees of 6..24 nodes (quick 24, thorough 180); every 5th case gives all nodes ONE data object "
+            "(siblings equal but not identical); 22 fixed + 24 (quick) / 110 (thorough) random MUTATION HISTORIES (remove, remove(keep_children), "
             "remove_children, move_to, clear + re-add, sort, filter, add) applied before formatting with compact styles, custom 6-tuples and "
-            "ragged tuples; 8 fixed + 12 (quick) / 120 (thorough) SESSIONS on one tree object with one Python object per style: format everything, "
+            "ragged tuples; 8 fixed + 12 (quick) / 60 (thorough) SESSIONS on one tree object with one Python object per style: format everything, "
             "restructure above the start nodes (move_to, remove(keep_children), ...) while the caller swaps two connectors of its list styles "
             "in place, format everything again AND consume the format_iter() generators created before the restructuring (they must show "
             "the tree as it is when consumed), caller's style objects compared with a snapshot after every phase; "
@@ -339,7 +339,7 @@ class Prop:
         for j, (shape, ops) in enumerate(HIST_SEEDS):
             yield self._desc(shape, hist_styles, 3 * j, typed=(j % 5 == 4), ops=ops)
             i += 1
-        for j in range(24 if tier == "quick" else 200):
+        for j in range(24 if tier == "quick" else 110):
             shape = H.random_shape(rng, rng.randint(3, 10), deep=rng.choice([0.3, 0.6, 0.9]))
             ops = random_ops(rng, rng.randint(1, 5))
             sub = rng.sample(hist_styles[:8], 4) + rng.sample(hist_styles[8:], 1)
@@ -353,13 +353,13 @@ class Prop:
             sub = sess_styles if tier != "quick" else [sess_styles[k] for k in (0, 2 + j % 2, 4, 5, 6 + j % 2, 8)]
             yield self._desc(shape, sub, 3 * j + 1, typed=(j % 4 == 3), ops=pre, phases=phases)
             i += 1
-        for j in range(12 if tier == "quick" else 120):
+        for j in range(12 if tier == "quick" else 60):
             shape = H.random_shape(rng, rng.randint(4, 9), deep=rng.choice([0.6, 0.9]))
             phases = [random_ops(rng, rng.randint(1, 3), RESTRUCTURE) for _ in range(rng.choice([1, 1, 2]))]
             sub = [sess_styles[0]] + rng.sample(sess_styles[1:4], 1) + rng.sample(sess_styles[4:8], 2)
             yield self._desc(shape, sub, rng.randrange(1000), typed=rng.random() < 0.25, phases=phases)
             i += 1
-        nrand = 24 if tier == "quick" else 300
+        nrand = 24 if tier == "quick" else 180
         for _ in range(nrand):
             n = rng.randint(6, 24)
             shape = H.random_shape(rng, n, deep=rng.choice([0.3, 0.6, 0.9]))
